@@ -58,6 +58,19 @@ ITEMS = {
 PLAIN_S = ["x", "", "a b", "{x}", "line1\nline2", "\u00fcn\u00ef", "{", "}{0}"]
 
 
+CT_ATOMS = ["charset", "variant", "a", "v", "x"]
+CT_VALUES = ["UTF-8", "utf-8", "GFM", "CommonMark", "us-ascii'en'GFM", "utf-8''UTF-8", "\"UTF-8\"", "\"GFM", "UTF", "-8", "", "%55TF-8", "=?utf-8?q?GFM?=", "latin1"]
+def rand_ctype(rng):
+    """a content type with RFC 2231-style parameters (sections *N, extended values *, missing =, stray quotes)"""
+    t = rng.choice(["text/plain", "text/markdown", "text/x-rst", "Text/Markdown", "text/html", "text"])
+    for _ in range(rng.choice([1, 1, 2, 3])):
+        n = rng.choice(CT_ATOMS) + rng.choice(["", "", "*", "*0", "*0*", "*1", "*1*", "**", "*x", "0*"])
+        k = rng.random()
+        if k < 0.25: t += rng.choice(["; ", ";", " ;"]) + n
+        else: t += rng.choice(["; ", ";", " ;"]) + n + rng.choice(["=", "=", " = ", "*="]) + rng.choice(CT_VALUES)
+    if rng.random() < 0.1: t = gen.mutate(rng, t, list("*;='\"%0 ") + ["\n"])
+    return t
+
 def pick_value(rng, f, p_valid=0.8):
     good = rng.random() < p_valid
     if f == "metadata_version":
@@ -66,6 +79,8 @@ def pick_value(rng, f, p_valid=0.8):
         s = gen.spell(rng, gen.rand_v(rng)) if rng.random() < 0.7 else rng.choice(["1.0", "1", "2.0a1", "1.0+x"])
         if good: return s
         return rng.choice(["", "x", "{0}", "1.0{", gen.mutate(rng, s), "1.0.*", "{"])
+    if f == "description_content_type" and rng.random() < 0.3:
+        return rand_ctype(rng)                                         # validity is whatever the email package says (oracle 3)
     if f in P:
         return rng.choice(P[f][0] if good else P[f][1])
     if f in ITEMS:
